@@ -437,7 +437,11 @@ func (in *Interp) runPath(prefix []Decision) (outcome string, msg string) {
 			}
 		default:
 			outcome = "engine-error"
-			msg = fmt.Sprintf("%v\n%s\nstack: %s", r, debug.Stack(), strings.Join(in.stack(), " | "))
+			gs := string(debug.Stack())
+			if len(gs) > 1800 {
+				gs = gs[:1800] + "…"
+			}
+			msg = fmt.Sprintf("%v @ %s\n%s", r, strings.Join(in.stack(), " | "), gs)
 		}
 	}()
 	in.callSSA(nil, nil, in.ex.entry, nil, nil)
